@@ -48,6 +48,8 @@ fn newton_scalar<T: Ev + Re + Sc>(t: &mut Toks, cx: &mut Ctx, run: impl Fn(&Newt
     cx.meta("result", match &r1 { Ok(Ok(_)) => "ok", Ok(Err(_)) => "err", Err(_) => "panic" });
     match &r1 {
         Ok(Ok(x)) => { cx.check(calls >= 3, "success without any iteration");
+            cx.check(x.finite(), "success reported with a non-finite point");
+            if family == "rootfree" { cx.fail("success reported for a function that has no root"); }
             if family.starts_with("basin") { let d = nearest(*x, &roots); cx.check(d <= 100.0 * tol + 1e-12 * (1.0 + x.mag()), &format!("success reported at distance {:e} from the nearest root (tol {:e})", d, tol)); } }
         Ok(Err(_)) => { cx.check(calls == 3 * max_iter, "failure reported before the iteration limit was reached");
             if family.starts_with("basin") && max_iter >= 20 && tol >= 1e-12 { cx.fail("guess inside the basin of quadratic convergence but failure reported"); } }
@@ -95,7 +97,8 @@ fn newton_sys<T: Ev + Re + Sc>(t: &mut Toks, cx: &mut Ctx,
         cx.meta("iters", calls / per_iter);
     }
     match &r1 {
-        Ok(Ok(x)) => { if family.starts_with("basin") && x.size() == root.len() { let d = (0..n).map(|i| (x[i] - root[i]).mag()).fold(0.0, f64::max);
+        Ok(Ok(x)) => { cx.check(x.vec.iter().all(|z| z.finite()), "success reported with a non-finite point");
+            if family.starts_with("basin") && x.size() == root.len() { let d = (0..n).map(|i| (x[i] - root[i]).mag()).fold(0.0, f64::max);
             cx.check(d <= 100.0 * tol + 1e-10, &format!("success reported at distance {:e} from the root (tol {:e})", d, tol)); } }
         Ok(Err(_)) => { cx.check(calls == per_iter * max_iter, "failure reported before the iteration limit was reached");
             if family.starts_with("basin") && max_iter >= 20 && tol >= 1e-10 { cx.fail("guess inside the basin of quadratic convergence but failure reported"); } }
@@ -191,7 +194,13 @@ fn gen_scalar(rng: &mut Rng, out: &mut Vec<String>, n: usize) {
                 out.push(format!("newton_s f {} {} {} {} basin-trig 1 {} {}", g.wr(), tol.wr(), delta.wr(), max_iter, root.wr(), e.show())); }
             4 => { // root-free / non-differentiable: x^2 + 1, |x| + 1, exp(x)
                 let e: E<f64> = match rng.below(3) { 0 => add(mul(v(0), v(0)), k(1.0)), 1 => add(Expr::Abs(Box::new(v(0))), k(1.0)), _ => Expr::Exp(Box::new(v(0))) };
-                out.push(format!("newton_s f {} {} {} {} rootfree 0 {}", (rng.range(-4, 4) as f64 + 0.25).wr(), tol.wr(), delta.wr(), rng.below(12), e.show())); }
+                // start either at a generic point or exactly on the stationary point / kink x = 0 (derivative estimate 0)
+                let g = if rng.chance(40) { 0.0 } else { rng.range(-4, 4) as f64 + 0.25 };
+                out.push(format!("newton_s f {} {} {} {} rootfree 0 {}", g.wr(), tol.wr(), delta.wr(), rng.below(12), e.show()));
+                if i % 12 == 4 { let ec: E<Cmplx> = add(mul(v(0), v(0)), k(1.0)).clone();
+                    // complex: z^2 + 2 has roots +-i sqrt 2 but from 0+0i the first step is 0/0
+                    let ec2: E<Cmplx> = add(ec, k(1.0));
+                    out.push(format!("newton_s c {} {} {} {} stationary 0 {}", Cmplx::new(0.0, 0.0).wr(), tol.wr(), delta.wr(), 2 + rng.below(8), ec2.show())); } }
             _ => { // complex polynomial with separated complex roots
                 let rs = [Cmplx::new(1.0, 1.0), Cmplx::new(-2.0, 0.5), Cmplx::new(0.0, -3.0)]; let kk = 1 + rng.below(3);
                 let g = rs[rng.below(kk)] + Cmplx::new((rng.unit() - 0.5) * 0.3, (rng.unit() - 0.5) * 0.3);
